@@ -33,10 +33,10 @@ for prop, spec_ in sorted(table.items()):
             bins[bk], _ = m.build(work, "/repo", c["world"], ov, yld=bool(c.get("yield")))
         checks = min(CHECKS, c["quick"])
         for i in range(N):
-            ws = m.worker_seed(12345, prop, c["test"], i)
+            ws = m.worker_seed(12345, prop, c["world"] + "/" + c["test"], i)
             for rep, gmp in enumerate((1, 4, 16)):
                 jobs.append({"prop": prop, "tier": "quick", "world": c["world"], "test": c["test"], "repo": "/repo",
-                             "bin": bins[bk], "dir": os.path.join(work, f"{prop}-{c['test']}-{i}-{rep}"),
+                             "bin": bins[bk], "dir": os.path.join(work, f"{prop}-{c['world']}-{c['test']}-{i}-{rep}"),
                              "seed": ws, "checks": checks, "verif_seed": 12345, "gomaxprocs": gmp, "key": key + (i,)})
 random.Random(1).shuffle(jobs)
 t0 = time.time()
